@@ -66,11 +66,24 @@ def cases(tier, seed):
             out.append({'fam': 'B', 'prog': p, 'w': list(w), 'tier': tier})
     # wide layers: the refinement only depends on the per-precision channel COUNTS (and, for the reassignment, on the scores), so the
     # lattice here is the set of count compositions in steps of `step` channels (NE16 tiles of 32 output channels are crossed)
-    for cout, step, w in ((64, 8, (2, 4, 8)), (40, 8, (2, 4, 8)), (12, 3, (2, 4, 8)), (32, 8, (0, 2, 4, 8)), (48, 12, (2, 3, 4, 8))):
+    for cout, step, w in ((64, 8, (2, 4, 8)), (40, 8, (2, 4, 8)), (12, 3, (2, 4, 8)), (32, 8, (0, 2, 4, 8)), (48, 12, (2, 3, 4, 8)),
+                          # precision tuples that are NOT in ascending order (finding D36 was exactly there)
+                          (40, 8, (8, 2)), (40, 8, (8, 4, 2)), (40, 8, (4, 8, 2)), (32, 8, (8, 0, 2))):
         if tier == 'quick' and cout == 48:
             continue
         for k in (3, 1):
             out.append({'fam': 'B-wide', 'cout': cout, 'step': step, 'k': k, 'w': list(w), 'tier': tier})
+    # the refinement called on a model still in training mode with Gumbel sampling; interleaved channel order
+    for cout, w in ((40, (2, 4, 8)), (32, (0, 2, 4, 8))):
+        out.append({'fam': 'B-wide', 'cout': cout, 'step': 8, 'k': 3, 'w': list(w), 'mode': 'train-gumbel', 'tier': tier})
+        out.append({'fam': 'B-wide', 'cout': cout, 'step': 8, 'k': 3, 'w': list(w), 'interleaved': True, 'tier': tier})
+    # a depthwise conv behind the driven layer shares its weight quantizer (per-channel search)
+    for il in (False, True):
+        out.append({'fam': 'B-wide', 'cout': 32, 'step': 8, 'k': 3, 'w': [2, 4, 8], 'post_dw': True, 'interleaved': il, 'tier': tier})
+    # two wide layers: the driven layer is the SECOND one the refinement visits
+    for pre_pat in ('low', 'mixed'):
+        for k in (3, 1):
+            out.append({'fam': 'B-wide', 'cout': 32, 'step': 8, 'k': k, 'w': [2, 4, 8], 'pre': 24, 'pre_pat': pre_pat, 'tier': tier})
     return out
 
 
@@ -266,12 +279,21 @@ def _run_B_wide(case, seed):
     from plinio.methods.mps.utils import optimize_prec_assignment
     cout, step, k, w = case['cout'], case['step'], case['k'], case['w']
     prog = {'cin': 3, 'size': 6, 'stages': [{'op': 'conv', 'cout': cout, 'k': k}], 'head': 'gaplin'}
+    pre, pre_pat = case.get('pre'), case.get('pre_pat')
+    if case.get('post_dw'):
+        # a depthwise conv BEHIND the driven layer: in per-channel search it shares the weight quantizer of its producer
+        prog['stages'].append({'op': 'conv', 'dw': True})
+    if pre:
+        # a second refinable wide layer in FRONT of the driven one (the driven layer is then not the first layer the refinement visits);
+        # its channels sit at the lowest precision ('low') or cycle through the precisions ('mixed')
+        prog['stages'].insert(0, {'op': 'conv', 'cout': pre, 'k': 3})
     res = {'states': 0, 'transitions': 0, 'evals': 0, 'nontrivial': [], 'outcomes': set(), 'violations': []}
     cur = [None]
 
     def add(kind, sig, msg):
         res['outcomes'].add(kind)
-        res['violations'].append({'kind': kind, 'sig': sig, 'msg': f'wide conv cout={cout} k={k} w={w}: {cur[0]}: {msg}',
+        res['violations'].append({'kind': kind, 'sig': sig, 'msg': f'wide conv cout={cout} k={k} w={w}' + (f' behind a {pre}-channel conv ({pre_pat})' if pre else '') + (' + depthwise conv' if case.get('post_dw') else '') +
+                                         (' [train mode, Gumbel]' if case.get('mode') else '') + (' [interleaved channels]' if case.get('interleaved') else '') + f': {cur[0]}: {msg}',
                                   'case': dict({kk: v for kk, v in case.items() if kk != 'only'}, only=cur[0])})
     only = case.get('only')
     P = len(w)
@@ -291,13 +313,18 @@ def _run_B_wide(case, seed):
                     # channel c selects precision cols[c]; scores are tie-free and differ per channel
                     a = torch.zeros(Pj, Cj)
                     for c in range(Cj):
-                        a[:, c] = _reps(Pj, cols[(c * 7) % Cj] if False else cols[c])[c % 3] + 0.001 * c
+                        a[:, c] = _reps(Pj, cols[(c * 7) % Cj] if case.get('interleaved') else cols[c])[c % 3] + 0.001 * c
                     m.alpha.copy_(a)
+                elif pre and Cj == pre:
+                    m.alpha.copy_(torch.stack([_reps(Pj, 0 if pre_pat == 'low' else c % Pj)[c % 3] + 0.001 * c for c in range(Cj)], dim=1))
                 else:
                     m.alpha.copy_(torch.stack([_reps(Pj, Pj - 1)[c % 3] for c in range(Cj)], dim=1))
         res['states'] += 1
         res['transitions'] += 1
         res['evals'] += 1
+        shared_w = len({id(l.w_mps_quantizer) for _, l in nas.seed.named_modules() if hasattr(l, 'w_mps_quantizer')}) < \
+            sum(1 for _, l in nas.seed.named_modules() if hasattr(l, 'w_mps_quantizer'))
+        ssuf = '/weight-quantizer-shared-by-several-layers' if shared_w else ''
         try:
             nas.eval()
             nas.update_softmax_options(hard=True)
@@ -305,6 +332,11 @@ def _run_B_wide(case, seed):
                 nas(x)
                 before_bits = _bits(nas)
                 before_cost = float(nas.get_cost('ne16'))
+            if case.get('mode') == 'train-gumbel':
+                # the refinement is called on a model that is still in its search configuration (training mode, Gumbel sampling)
+                nas.update_softmax_options(gumbel=True)
+                nas.train()
+                torch.manual_seed(seed + 23)
             with contextlib.redirect_stdout(io.StringIO()):
                 nas = optimize_prec_assignment(nas, 'ne16')
                 # ... and once more on its own result (the refinement writes 0/1 coefficients back: every score row is full of ties)
@@ -323,9 +355,9 @@ def _run_B_wide(case, seed):
             if case.get('twice', True):
                 dem2 = [(ln, c) for ln in mid_bits for c in range(len(mid_bits[ln])) if after_bits[ln][c] < mid_bits[ln][c]]
                 if dem2:
-                    add('channel-demoted', 'channel-demoted/second-refinement', f'a second refinement of the refined model lowers channels {dem2[:4]}')
+                    add('channel-demoted', 'channel-demoted/second-refinement' + ssuf, f'a second refinement of the refined model lowers channels {dem2[:4]}')
                 if after_cost > mid_cost * (1 + 1e-6) + 1e-6:
-                    add('cost-raised', 'cost-raised/second-refinement', f"second refinement: get_cost('ne16') {mid_cost} -> {after_cost}")
+                    add('cost-raised', 'cost-raised/second-refinement' + ssuf, f"second refinement: get_cost('ne16') {mid_cost} -> {after_cost}")
             bad_cols = False
             for _, m in [(n, m) for n, m in GM.selectors(nas) if m.alpha.dim() == 2]:
                 a = m.alpha.detach()
@@ -340,15 +372,15 @@ def _run_B_wide(case, seed):
         demoted = [(ln, c, before_bits[ln][c], after_bits[ln][c]) for ln in before_bits for c in range(len(before_bits[ln]))
                    if after_bits[ln][c] < before_bits[ln][c]]
         if demoted:
-            add('channel-demoted', 'channel-demoted', f'channels with a lower bit-width than before: {demoted[:4]}')
+            add('channel-demoted', 'channel-demoted' + ssuf, f'channels with a lower bit-width than before: {demoted[:4]}')
         if after_cost > before_cost * (1 + 1e-6) + 1e-6:
-            add('cost-raised', 'cost-raised', f"get_cost('ne16') {before_cost} -> {after_cost} "
+            add('cost-raised', 'cost-raised' + ssuf, f"get_cost('ne16') {before_cost} -> {after_cost} "
                                               f"(counts before { {b: sum(1 for v in before_bits[ln] if v == b) for ln in before_bits for b in w} }, "
                                               f"after { {b: sum(1 for v in after_bits[ln] if v == b) for ln in after_bits for b in w} })")
         res['outcomes'].add('refined' if before_bits != after_bits else 'unchanged')
         res['nontrivial'].append(f'wide/{cout}/{k}/{w}/{counts}')
     res['outcomes'] = sorted(res['outcomes'])
-    res['sample'] = {'wide': True, 'cout': cout, 'k': k, 'w': w, 'count_step': step}
+    res['sample'] = {'wide': True, 'cout': cout, 'k': k, 'w': w, 'count_step': step, 'layer_in_front': [pre, pre_pat] if pre else None}
     return res
 
 
